@@ -2673,8 +2673,9 @@ func (r *repoT) GobDecode(b []byte) error {
 }
 
 func (r *repoT) GobEncode() ([]byte, error) {
-	r.RLock()
-	r.RUnlock()
+	// saveToStore holds the repo read lock while encoding.  Taking it again here (it was
+	// released at once and protected nothing) deadlocks as soon as a writer is queued
+	// between the two acquisitions, e.g. two concurrent new-version requests on one repo.
 
 	var buf bytes.Buffer
 	enc := gob.NewEncoder(&buf)
